@@ -58,6 +58,12 @@ Theorem C17_wake_token_unique :
   (forall k, k < nexts s -> spc_ (Sb s k) = SFastT a -> ahome (A s a) = HFast k) /\
   (forall k, k < nexts s -> sa (Sb s k) = a -> spc_ (Sb s k) = SArm \/ spc_ (Sb s k) = SStore -> ahome (A s a) = HSub k).
 Proof. exact (wake_token_unique cap peer selof fixB fixD calm peer_inv). Qed.
+(* (ii) ... also while a cancel holds it: between taking the coroutine out of its slot and scheduling it *)
+Theorem C17_wake_token_in_cancel :
+  forall s c, Reach s ->
+  (forall a f, Cn s a = Cn3 f c -> ahome (A s c) = HCan a) /\
+  (forall k f, k < nexts s -> spc_ (Sb s k) = SCan4 f c -> ahome (A s c) = HKCan k).
+Proof. exact (wake_token_in_cancel cap peer selof fixB fixD calm peer_inv). Qed.
 End C17.
 
 Print Assumptions C17_stream_preserved.
@@ -65,6 +71,7 @@ Print Assumptions C17_zero_only_at_end_of_stream.
 Print Assumptions C17_call_results.
 Print Assumptions C17_no_missed_edge.
 Print Assumptions C17_wake_token_unique.
+Print Assumptions C17_wake_token_in_cancel.
 
 (* ---- non-vacuity: a concrete pairing (0-1, 2-3, ...), capacity 4, two selectors ------------------------------- *)
 Definition peer2 (f : nat) := if Nat.even f then S f else pred f.
